@@ -76,7 +76,7 @@ func c06One(o dop, xj, yj *DecJ, cc CtxCase, dsts []DecJ) (msg string, bad int) 
 				out.err = err.Error()
 			}
 			out.obs = obsStr(d)
-			if (err != nil && res == 0) || extra == "skipped" {
+			if (err != nil && (res == 0 || res&(apd.SystemOverflow|apd.SystemUnderflow) != 0)) || extra == "skipped" {
 				out.obs = "(no result delivered)"
 			}
 			return
